@@ -47,6 +47,27 @@ def is_unk(v):
     return v[0] == "unk"
 
 
+def _pieces(v):
+    if v[0] in ("str", "char"):
+        return (("lit", v[1]),) if v[1] != "" else ()
+    return v[1]
+
+
+def str_equal(a, b):
+    """equality on literal / symbolic strings: True, False or None (unknown).
+    An atom (opaque valid component) never equals a literal keyword."""
+    pa, pb = _pieces(a), _pieces(b)
+    ca = all(x[0] == "lit" for x in pa)
+    cb = all(x[0] == "lit" for x in pb)
+    if ca and cb:
+        return "".join(x[1] for x in pa) == "".join(x[1] for x in pb)
+    if pa == pb:
+        return True
+    if ca or cb:
+        return False
+    return None
+
+
 class State:
     __slots__ = ("store", "mon", "depth", "_frozen")
 
@@ -558,8 +579,16 @@ class Interp:
                         return self.match_all(list(zip(p["pats"], v[2])), st)
                     return self.match_all([(q, unk("payload")) for q in p["pats"]], st)
                 if k == "Struct":
-                    return self.match_all([(f["pat"], unk("variantfield")) for f in p["fields"]], st)
+                    pairs = []
+                    for f in p["fields"]:
+                        if f["name"].isdigit() and int(f["name"]) < len(v[2]):
+                            pairs.append((f["pat"], v[2][int(f["name"])]))
+                        else:
+                            pairs.append((f["pat"], unk("variantfield")))
+                    return self.match_all(pairs, st)
                 return [(True, st)]
+            if v[0] == "struct" and want is not None and v[1] != want and not p["path"].get("selfty"):
+                return [(False, st)]
             if v[0] == "struct" and k == "Struct":
                 d = dict(v[2])
                 return self.match_all([(f["pat"], d.get(f["name"], unk("field"))) for f in p["fields"]], st)
@@ -583,6 +612,11 @@ class Interp:
             lv = self.e_Lit(lit, st)[0][1]
             if is_unk(v) or is_unk(lv):
                 return [(True, st), (False, st)]
+            if v[0] in ("str", "sstr", "char") and lv[0] in ("str", "char"):
+                e = str_equal(v, lv)
+                if e is None:
+                    return [(True, st), (False, st)]
+                return [(e, st)]
             if v[0] == "abs" and self.module is not None and hasattr(self.module, "match_abs"):
                 r = self.module.match_abs(self, p, v, st)
                 if r is not None:
@@ -765,6 +799,8 @@ class Interp:
             if self.module is not None and hasattr(self.module, "abs_equal"):
                 return self.module.abs_equal(self, a, b)
             return None
+        if a[0] in ("str", "sstr", "char") and b[0] in ("str", "sstr", "char"):
+            return str_equal(a, b)
         if a[0] != b[0]:
             return None
         if a[0] in ("bool", "char", "str", "unit"):
@@ -799,6 +835,23 @@ class Interp:
             return res
         return None
 
+    def deep_deref(self, st, v, depth):
+        """replace references into the frame `depth` (about to be popped) by the values they point to"""
+        if not isinstance(v, tuple) or not v:
+            return v
+        if v[0] == "ref":
+            root = v[1][0]
+            if root[0] == "L" and root[1] >= depth:
+                return self.deep_deref(st, self.read(st, v[1]), depth)
+            return v
+        if v[0] == "enum":
+            return ("enum", v[1], tuple(self.deep_deref(st, x, depth) for x in v[2]))
+        if v[0] == "tuple":
+            return ("tuple", tuple(self.deep_deref(st, x, depth) for x in v[1]))
+        if v[0] == "struct":
+            return ("struct", v[1], tuple((k, self.deep_deref(st, x, depth)) for k, x in v[2]))
+        return v
+
     def deref_val(self, st, v):
         while v[0] == "ref":
             v = self.read(st, v[1])
@@ -813,6 +866,10 @@ class Interp:
             l, r = self.deref_val(s, vals[0]), self.deref_val(s, vals[1])
             if self.module is not None and hasattr(self.module, "binary"):
                 res = self.module.binary(self, n, l, r, s)
+                if res is not None:
+                    return res
+            if "def" in n and self.module is not None and op in ("+",):
+                res = self.module.intrinsic(self, n["def"], [l, r], s, n)
                 if res is not None:
                     return res
             return [(OK, self.binop(op, l, r), s)]
@@ -848,9 +905,21 @@ class Interp:
         return [(OK, ("closure", id(n), st.depth), st)]
 
     def e_Fmt(self, n, st):
-        # format_args: evaluate argument expressions for effects, result is an opaque string
-        args = [p["a"] for p in n["p"] if isinstance(p, dict) and p.get("a")]
-        return self.seq(args, st, lambda vals, s: [(OK, ("abs", "fmt", id(n)), s)])
+        # format_args: literal pieces and evaluated placeholder arguments
+        argn = [p["a"] for p in n["p"] if isinstance(p, dict) and p.get("a")]
+
+        def fin(vals, s):
+            items = []
+            it = iter(vals)
+            for p in n["p"]:
+                if isinstance(p, str):
+                    items.append(("lit", p))
+                elif p.get("a"):
+                    items.append(("arg", p.get("t", "?") if not p.get("opts") else "opts", next(it)))
+                else:
+                    items.append(("arg", "?", unk("fmtarg")))
+            return [(OK, ("fmtv", tuple(items)), s)]
+        return self.seq(argn, st, fin)
 
     def e_Repeat(self, n, st):
         return [(OK, unk("repeat"), st)]
@@ -931,6 +1000,11 @@ class Interp:
         if r is not None:
             return r
         f = self.facts.fns.get(callee)
+        if f is not None and f.get("x", "").startswith("m:Derive:PartialEq") and f.get("name") in ("eq", "ne"):
+            l, r2 = self.deref_val(st, args[0]), self.deref_val(st, args[1])
+            return [(OK, self.binop("==" if f["name"] == "eq" else "!=", l, r2), st)]
+        if f is not None and f.get("x", "").startswith("m:Derive:Clone"):
+            return [(OK, self.deref_val(st, args[0]), st)]
         if f is not None and "body" in f and st.depth < self.max_depth and callee not in self.callstack:
             return self.inline(f, args, st)
         self.unknown_calls[callee] = self.unknown_calls.get(callee, 0) + 1
@@ -950,6 +1024,7 @@ class Interp:
             for ok, s2 in res:
                 for ctl, v, s3 in self.eval(f["body"], s2):
                     # drop callee locals
+                    v = self.deep_deref(s3, v, st.depth + 1)
                     store = {k: x for k, x in s3.store.items() if not (k[0] == "L" and k[1] == st.depth + 1)}
                     s4 = State(store, s3.mon, st.depth)
                     if ctl in (RET, OK):
@@ -971,11 +1046,20 @@ class Interp:
         "<T as core::convert::From<T>>::from", "<alloc::string::String as core::convert::From<&str>>::from",
         "core::option::Option::<T>::as_ref", "core::option::Option::<T>::as_deref", "core::option::Option::<&T>::copied",
         "core::option::Option::<&T>::cloned", "core::option::Option::<T>::as_mut",
+        "<T as alloc::borrow::ToOwned>::to_owned", "std::path::Path::to_string_lossy", "std::path::PathBuf::as_path",
+        "<std::path::PathBuf as core::convert::From<&T>>::from", "<alloc::borrow::Cow<'_, T> as core::convert::AsRef<T>>::as_ref",
+        "<std::path::PathBuf as core::ops::deref::Deref>::deref", "url::Url::as_str", "<alloc::string::String as core::convert::AsRef<str>>::as_ref",
+        "<alloc::borrow::Cow<'_, B> as core::ops::deref::Deref>::deref", "<str as core::convert::AsRef<str>>::as_ref",
+        "<alloc::string::String as core::borrow::Borrow<str>>::borrow",
     )
 
     def std_intrinsic(self, callee, args, st, n):
+        if callee.endswith("as core::clone::Clone>::clone") and callee not in self.facts.fns:
+            return [(OK, self.deep_deref(st, self.deref_val(st, args[0]), 0), st)]
         if callee in self.TRANSPARENT:
             v = args[0]
+            if callee.endswith("ToOwned>::to_owned") or callee.startswith("std::path::") or "Cow<" in callee:
+                v = self.deref_val(st, v) if v[0] == "ref" and self.read(st, v[1])[0] != "ref" else (self.read(st, v[1]) if v[0] == "ref" else v)
             if callee.endswith("::clone") or callee.endswith("to_string") or callee.endswith("to_owned") or "Option" in callee:
                 v = self.deref_val(st, v)
                 if v[0] == "enum" and v[1] == SOME and "Option" in callee:
@@ -1035,7 +1119,7 @@ class Interp:
             if v[0] == "enum" and v[1] == SOME:
                 return self.apply(args[2], [v[2][0]], st, n)
             return [(OK, args[1], st)] + self.apply(args[2], [unk("map_or")], st, n)
-        if callee in ("core::cmp::PartialEq::eq", "core::cmp::PartialEq::ne"):
+        if callee in ("core::cmp::PartialEq::eq", "core::cmp::PartialEq::ne") or (("as core::cmp::PartialEq" in callee) and callee.endswith(("::eq", "::ne")) and callee not in self.facts.fns):
             l, r = self.deref_val(st, args[0]), self.deref_val(st, args[1])
             v = self.binop("==" if callee.endswith("eq") else "!=", l, r)
             return [(OK, v, st)]
